@@ -19,12 +19,14 @@ Definition pop : parser op :=
   else pfail.
 Definition prule0 : parser rule := t <- pZ ;; pret (if t =? 0 then Trapz else Simps).
 Definition pends0 : parser endsmode := t <- pZ ;; pret (if t =? 0 then Symmetric else Inside).
-(* calls of a session: 1..5 the resizing calls, 6 value assignment, 7 integrate, 8 bin *)
+(* calls of a session: 1..5 the resizing calls, 6 value assignment, 7 integrate, 8 bin, 9 append(copy=True), 10 asarray *)
 Definition pcall : parser call :=
   t <- pZ ;;
   if t =? 6 then (v <- plq ;; pret (CSetValue v))
   else if t =? 7 then (a <- popt pQ ;; b <- popt pQ ;; r <- prule0 ;; pret (CIntegrate a b r))
   else if t =? 8 then (c <- plq ;; r <- prule0 ;; e <- pends0 ;; p <- pbool ;; pret (CBin c r e p))
+  else if t =? 9 then (o <- pspec ;; pret (CAppendCopy o))
+  else if t =? 10 then pret CAsArray
   else fun l => match pop (t :: l) with Some (o, rest) => Some (CEdit o, rest) | None => None end.
 Definition prule : parser rule := t <- pZ ;; pret (if t =? 0 then Trapz else Simps).
 Definition pends : parser endsmode := t <- pZ ;; pret (if t =? 0 then Symmetric else Inside).
@@ -34,7 +36,8 @@ Definition eoutcome (o : outcome) : list Z :=
   (match snd o with None => 0 | Some e => errcode e end) :: elq (wave (fst o)) ++ elq (value (fst o)).
 
 Definition eanswer (a : answer) : list Z :=
-  match a with ANone => [0] | ANum x => 1 :: eQ x | ABins b => 2 :: eopt elq b end.
+  match a with ANone => [0] | ANum x => 1 :: eQ x | ABins b => 2 :: eopt elq b
+  | ASpec s => 3 :: elq (wave s) ++ elq (value s) end.
 Definition estep (r : outcome * answer) : list Z := eoutcome (fst r) ++ eanswer (snd r).
 (* the other admissible exception class of a refused pad (0: none) *)
 Definition ealt (s : spectrum) (c : call) : list Z :=
